@@ -72,10 +72,10 @@ Theorem C02_IEEE1905_getters_spec : forall v, wf v -> bytes_ok (arr v) ->
 Proof. exact IEEE1905_spec. Qed.
 Print Assumptions C02_IEEE1905_getters_spec.
 
-Theorem C02_IP4_getters_spec_partial : forall v, wf v -> bytes_ok (arr v) ->
-  IP4_IsValid v = Ok true -> getters_spec IP4_findings_C02 IP4_getters IP4_specs v.
+Theorem C02_IP4_getters_spec : forall v, wf v -> bytes_ok (arr v) ->
+  IP4_IsValid v = Ok true -> getters_spec [] IP4_getters IP4_specs v.
 Proof. exact IP4_spec. Qed.
-Print Assumptions C02_IP4_getters_spec_partial.
+Print Assumptions C02_IP4_getters_spec.
 
 Theorem C02_IP6_getters_spec : forall v, wf v -> bytes_ok (arr v) ->
   IP6_IsValid v = Ok true -> getters_spec [] IP6_getters IP6_specs v.
@@ -92,10 +92,10 @@ Theorem C02_SNAP_getters_spec : forall v, wf v -> bytes_ok (arr v) ->
 Proof. exact SNAP_spec. Qed.
 Print Assumptions C02_SNAP_getters_spec.
 
-Theorem C02_TCP_getters_spec_partial : forall v, wf v -> bytes_ok (arr v) ->
-  TCP_IsValid v = Ok true -> getters_spec TCP_findings_C02 TCP_getters TCP_specs v.
+Theorem C02_TCP_getters_spec : forall v, wf v -> bytes_ok (arr v) ->
+  TCP_IsValid v = Ok true -> getters_spec [] TCP_getters TCP_specs v.
 Proof. exact TCP_spec. Qed.
-Print Assumptions C02_TCP_getters_spec_partial.
+Print Assumptions C02_TCP_getters_spec.
 
 Theorem C02_UDP_getters_spec : forall v, wf v -> bytes_ok (arr v) ->
   UDP_IsValid v = Ok true -> getters_spec [] UDP_getters UDP_specs v.
@@ -107,36 +107,23 @@ Theorem C02_U880a_getters_spec : forall v, wf v -> bytes_ok (arr v) ->
 Proof. exact U880a_spec. Qed.
 Print Assumptions C02_U880a_getters_spec.
 
-(* ---- refutations of the full statement on the real code's model (DESIGN section 11 #3 #4 #5 #8) ---- *)
-Theorem C02_IP4_fragment_refuted :
-  exists v, wf v /\ bytes_ok (arr v) /\ IP4_IsValid v = Ok true /\
-            IP4_Fragment v = Ok (VN 0) /\ sfield 51 13 (view v) = VN 8191.
-Proof. exact IP4_fragment_refuted. Qed.
-Print Assumptions C02_IP4_fragment_refuted.
-Theorem C02_IP4_payload_refuted :
-  exists v, wf v /\ bytes_ok (arr v) /\ IP4_IsValid v = Ok true /\ IP4_Payload v = Panic.
-Proof. exact IP4_payload_refuted. Qed.
-Print Assumptions C02_IP4_payload_refuted.
-Theorem C02_TCP_headerlen_refuted :
-  exists v, wf v /\ bytes_ok (arr v) /\ TCP_IsValid v = Ok true /\
-            TCP_HeaderLen v = Ok (VN 5) /\ tcp_hlen (view v) = 20 /\ TCP_Payload v = Ok (VR 5 17).
-Proof. exact TCP_headerlen_refuted. Qed.
-Print Assumptions C02_TCP_headerlen_refuted.
-Theorem C02_Ether_srcip_dstip_refuted :
-  exists v, wf v /\ bytes_ok (arr v) /\ Ether_IsValid v = Ok true /\ Ether_SrcIP v = Panic /\ Ether_DstIP v = Panic.
-Proof. exact Ether_srcip_refuted. Qed.
-Print Assumptions C02_Ether_srcip_dstip_refuted.
+(* ---- the remaining refutation (recorded finding view-ether-payload-spare-capacity) ---- *)
+Theorem C02_Ether_payload_refuted :
+  exists v, wf v /\ bytes_ok (arr v) /\ Ether_IsValid v = Ok true /\ ~ getter_ok v Ether_Payload.
+Proof. exact Ether_payload_refuted. Qed.
+Print Assumptions C02_Ether_payload_refuted.
 
 (* ---- non-vacuity ---- *)
 Example C02_IP4_nonvacuous : wf ex_ip4 /\ bytes_ok (arr ex_ip4) /\ IP4_IsValid ex_ip4 = Ok true /\
-  forallb (fun ng => negb (known_of IP4_findings_C02 (fst ng) ex_ip4)) IP4_getters = true.
+  IP4_Fragment ex_ip4 = Ok (VN 8191) /\ IP4_Payload ex_ip4 = Ok (VR 24 4).
 Proof. exact IP4_valid_ex. Qed.
 Print Assumptions C02_IP4_nonvacuous.
 Example C02_TCP_nonvacuous : wf ex_tcp /\ bytes_ok (arr ex_tcp) /\ TCP_IsValid ex_tcp = Ok true /\
-  forallb (fun ng => negb (known_of TCP_findings_C02 (fst ng) ex_tcp)) TCP_getters = true.
+  TCP_HeaderLen ex_tcp = Ok (VN 24) /\ TCP_Payload ex_tcp = Ok (VR 24 2).
 Proof. exact TCP_valid_ex. Qed.
 Print Assumptions C02_TCP_nonvacuous.
 Example C02_Ether_nonvacuous : wf ex_ether /\ bytes_ok (arr ex_ether) /\ Ether_IsValid ex_ether = Ok true /\
-  forallb (fun ng => negb (known_of Ether_findings (fst ng) ex_ether)) Ether_getters = true.
+  forallb (fun ng => negb (known_of Ether_findings (fst ng) ex_ether)) Ether_getters = true /\
+  Ether_SrcIP ex_ether = Ok (VX [10;0;0;1]).
 Proof. exact Ether_valid_ex. Qed.
 Print Assumptions C02_Ether_nonvacuous.
